@@ -85,8 +85,8 @@ def render_step(step, hp, rng, tag):
 
 def vstr(v):
     """variant: False/None = the code as it is; otherwise a 7-flag string
-    (dupclose,bcap,capclose,capfail,bunop = committed repairs; bfold,capfirst = PROPOSED notes/C04-fix-3 / -4)"""
-    return v if isinstance(v, str) else "1111100"
+    (dupclose,bcap,capclose,capfail,bunop,bfold = committed repairs; capfirst = PROPOSED notes/C04-fix-4)"""
+    return v if isinstance(v, str) else "1111110"
 
 
 def step_case(step, v, t0):
@@ -440,7 +440,7 @@ def run_sequence(ctx, steps, seqid, strace=False, extra_fds=(), present=()):
     # False = the code as it is; the others = the proposed repairs (single flags, then all)
     # the code as it is, then the code with a PROPOSED repair applied (so that committing one is not an alarm);
     # a reverted committed repair matches none of them and is a violation
-    VARIANTS = [False, "1111110", "1111101", "1111111"]
+    VARIANTS = [False, "1111111"]
     variants = {False: model_run(False)}
     work = tempfile.mkdtemp(prefix="fds_")
     out = {"line": line, "findings": [], "bad": [], "accepted": [], "nontrivial": [], "variant": None}
@@ -648,7 +648,7 @@ def step_has_builtin_single(step):
 
 
 # ---------------------------------------------------------------- judging one sequence
-CLASS_OF = {"capdup": "capture-with-redirect", "lookahead": "builtin-lookahead-leak"}
+CLASS_OF = {"capdup": "capture-with-redirect"}
 
 
 def judge(out, prop, known):
